@@ -23,6 +23,7 @@ def _run_one(spec):
            'times': {}, 'error': None, 'notes': []}
     try:
         u = H.Unit(_WORK, spec.name, spec.includes, spec.wrappers, spec.extra_src, spec.extra_clang, spec.native)
+        u.tail_src = getattr(spec, 'tail_src', '')
         u.compile_ir()
         if spec.native:
             u.compile_native()
